@@ -353,6 +353,43 @@ pub fn corrupt(frame: &[u8], medium: Medium, t: &mut Tape) -> Option<(Vec<u8>, u
             };
         }
     }
+    // IPv4 with options: rewrite the (valid) packet so that it carries 4 or 8 option octets (header length,
+    // total length and header checksum adjusted), then damage one bit inside the options: the header checksum
+    // covers them, so this is class 1 as well
+    if let Some(ip) = &orig.ip {
+        if ip.v4.is_some() && ip.hdr_len == 20 && frame.len() >= l2 + 20 && t.draw(10) == 9 {
+            // (all-zero options add nothing to the one's-complement sum: a verification that covered only the
+            // first 20 octets would still pass before and after the damage)
+            let opts: &[u8] = match t.draw(5) {
+                0 => &[1, 1, 1, 0],
+                1 => &[0x94, 4, 0, 0],
+                2 => &[1, 1, 1, 1, 0x94, 4, 0, 0],
+                3 => &[0, 0, 0, 0],
+                _ => &[0, 0, 0, 0, 0, 0, 0, 0],
+            };
+            let mut w = frame[..l2 + 20].to_vec();
+            w.extend_from_slice(opts);
+            w.extend_from_slice(&frame[l2 + 20..]);
+            w[l2] = 0x40 | ((20 + opts.len()) / 4) as u8;
+            let tl = (((frame[l2 + 2] as usize) << 8) | frame[l2 + 3] as usize) + opts.len();
+            w[l2 + 2] = (tl >> 8) as u8;
+            w[l2 + 3] = tl as u8;
+            w[l2 + 10] = 0;
+            w[l2 + 11] = 0;
+            let cs = codec::inet_csum(&w[l2..l2 + 20 + opts.len()], 0);
+            w[l2 + 10] = (cs >> 8) as u8;
+            w[l2 + 11] = cs as u8;
+            if lenient_decode(medium, &w).is_ok() {
+                let pos = l2 + 20 + t.draw(opts.len() as u64) as usize;
+                w[pos] ^= 1 << t.draw(8);
+                return match lenient_decode(medium, &w) {
+                    Err(LenientErr::Checksum) => Some((w, 1)),
+                    _ => None,
+                };
+            }
+            return None;
+        }
+    }
     let nbits = 1 + t.draw(2);
     for _ in 0..nbits {
         let pos = l2 + t.draw((frame.len() - l2) as u64) as usize;
